@@ -1147,6 +1147,10 @@ class _Canon(ast.NodeTransformer):
                 orelse=[ast.copy_location(ast.Assign(
                     targets=[copy.deepcopy(t)], value=node.value.orelse),
                     node)])
+            if isinstance(new.test, ast.UnaryOp) and isinstance(
+                    new.test.op, ast.Not):
+                new = ast.If(test=new.test.operand, body=new.orelse,
+                             orelse=new.body)
             return ast.copy_location(new, node)
         return node
 
